@@ -182,6 +182,11 @@ def judge(case, r, rng):
     best = pl.closer_pair_search(rng, A, B, [p1, p2])
     if best is not None:
         dd, a, b = best
+        nb = pl.vsub(pl.fv(b), pl.fv(a))
+        if any(x != 0 for x in nb):
+            for nn in (nb, pl.round_vec(nb)):
+                if pl.sep_cert(A, B, nn, bound):
+                    return "ok-cert", dict(kind="sep", n=nn, cand=-1)
         ua, ub = pl.dist2_upper(A, pl.fv(a)), pl.dist2_upper(B, pl.fv(b))
         if ua is not None and ub is not None:
             U = pl.sqrt_up(pl.n2(pl.vsub(pl.fv(a), pl.fv(b)))) + pl.sqrt_up(ua) + pl.sqrt_up(ub)
@@ -216,7 +221,8 @@ def run(tier, seed, replay=None):
         "harness/compat.py import shim; numpy/numba/CPython",
     ]
     if (cm.COQ / "theories" / "Props" / "C11.v").exists():
-        R.check_proofs([f for f in PROOF_FILES if (cm.COQ / f).exists()])
+        R.check_proofs([f for f in PROOF_FILES if (cm.COQ / f).exists() and (not f.endswith("Checker/Prim.v") or c10.coq_checker_planned())],
+                       build_targets=c10.build_targets(PID))
     else:
         R.proof_broken.append("Props/C11.v missing")
     c10.theorem_coverage(R, PID)
@@ -304,6 +310,11 @@ def run(tier, seed, replay=None):
                           c, site=c["fn"])
     R.cov["failures_total"] = len(fails)
     R.cov["failures_matching_known_findings"] = len(fails) - unknown
-    if und_convex and not fails:
-        R.notes.append(f"{und_convex} convex pairs without certificate and without closer pair (undecided)")
+    if und_convex:
+        # never observed on the unchanged tree (0 of ~30k thorough cases): for a convex pair a correct result always has a
+        # separating certificate along p2 - p1, so an undecided convex pair means the result is suspicious although the
+        # search found no (exactly verifiable) closer pair
+        R.corr_broken.append(f"optimality of {und_convex} results for CONVEX pairs could neither be certified (no separating "
+                             f"direction proves d - tol) nor refuted (no closer pair found): "
+                             + "; ".join(sorted({fn for fn, st in per_fn.items() if st.get('undecided') and 'circle' not in fn})))
     return R.finish()
